@@ -1,6 +1,6 @@
 (* C20 property theorems. *)
 From Coq Require Import ZArith List Bool.
-From PV Require Import Model.Filters Spec.C20 Proofs.C20Facts.
+From PV Require Import Model.FiltersOverlap Model.Filters Spec.C20 Proofs.C20Facts.
 Import ListNotations.
 Open Scope Z_scope.
 
@@ -25,6 +25,13 @@ Print Assumptions C20_aggregate.
 Theorem C20_aggregate_mixed : C20_aggregate_mixed_statement.
 Proof. exact C20Facts.C20_aggregate_mixed. Qed.
 Print Assumptions C20_aggregate_mixed.
+Theorem C20_overlap : C20_overlap_statement.
+Proof. exact C20Facts.C20_overlap. Qed.
+Print Assumptions C20_overlap.
+Theorem C20_aggregate_late_reset_refuted :
+  fst (orun true (KAggregate 5) (mkO (finit (KAggregate 5) 0) []) [OCall 1 (FNum 1); OCall 6 (FNum 2); OCall 6 (FNum 10); ODone; ODone]) =
+  [None; Some (FNum 3); Some (FNum 13)].
+Proof. exact C20Facts.C20_aggregate_late_reset_refuted. Qed.
 Theorem C20_chain : C20_chain_statement.
 Proof. exact C20Facts.C20_chain. Qed.
 Print Assumptions C20_chain.
